@@ -91,6 +91,24 @@ def slow_logout_sessions():
     return out
 
 
+def pipelined_passive_races():
+    """... and the session ends (peer gone, reset, server.close()) a given number of loop iterations after the two passive commands:
+    while the first listener is being opened and the second command waits for it."""
+    out = []
+    again = [["connect", 2], ["send", 2, "USER u2"], ["send", 2, "PASV"], ["connect", 3], ["send", 3, "USER u2"], ["send", 3, "EPSV"], ["srvclose"]]
+    for a, b in (("PASV", "PASV"), ("PASV", "EPSV"), ("EPSV", "PASV"), ("EPSV", "EPSV")):
+        for end in (["vanish", 1], ["vanish", 1, "reset"], ["srvclose"]):
+            for k in range(0, 12):
+                out.append([["connect", 1], ["send", 1, "USER u2"], ["nq", ["send", 1, a]], ["nq", ["send", 1, b]], ["iter", k], ["nq", end], ["tick", 0]]
+                           + (again if end != ["srvclose"] else []))
+            # the first start-up held at one of its gates, so that the second command is certainly waiting when the end comes
+            for point in ("prebind", "postbind"):
+                for k in (0, 2, 5):
+                    out.append([["connect", 1], ["send", 1, "USER u2"], ["lgate", 1, point], ["nq", ["send", 1, a]], ["iter", 4], ["nq", ["send", 1, b]], ["iter", 6 + k],
+                                ["nq", end], ["iter", 3], ["lrelease", 1], ["tick", 0]] + (again if end != ["srvclose"] else []))
+    return out
+
+
 PLANS = [
     ([3001, 3002], {}),
     ([3001, 3002], {"3001": "inuse"}),
@@ -131,7 +149,10 @@ def run(tier, seed):
     so = slow_logout_sessions()
     for k in (2, 6):
         corecheck.validate(chk, gen.std_cfg(ns=3, usepool=True, ports=[3001, 3002], slow_logout=k), gen.STD_TREE, so, label="slow-logout:%d" % k)
-    scheds = scheds + sr + pp + so
+    ppr = pipelined_passive_races()
+    for ports in ([3001, 3002], []):
+        corecheck.validate(chk, gen.std_cfg(ns=3, usepool=bool(ports), ports=ports), gen.STD_TREE, ppr, label="pipelined-passive-race:pool%d" % len(ports))
+    scheds = scheds + sr + pp + so + ppr
     # a server listening on an IPv6 address: PASV opens its listener and then has no IPv4 address to give (503, session ended)
     for ports, plan in (([3001, 3002], {}), ([3001], {"3001": ["inuse", "ok"]})):
         cfg = gen.std_cfg(ns=3, usepool=True, ports=ports, port_plan=plan, v6=True)
